@@ -27,7 +27,7 @@ def currencies():
 
 
 def plan(tier, seed):
-    k = 10 if tier == "quick" else 400
+    k = 16 if tier == "quick" else 400
     shards = []
     for cls in ("midpoint", "random", "large", "negzero"):
         shards += [{"cls": cls, "seed": seed, "shard": i, "n": 60} for i in range(k)]
